@@ -203,6 +203,7 @@ protected:
     }
 
     strCurr[lenCurr - 1] = 0;
+    lenCurr--;
   }
 };
 
